@@ -263,6 +263,10 @@ func TimerPending(t any) bool { return false }
 // Quiesce lets every other goroutine run until none of them can make progress (timers excluded).
 func Quiesce() {}
 
+// OtterEvictAll: the cache library has evicted every entry (their time-to-live is over / capacity pressure): the
+// otter model itself has no clock, so harnesses that let time pass say so explicitly.
+func OtterEvictAll() {}
+
 // GhostDuration reads a term-valued ghost, e.g. "otter.lastttl": the time-to-live most recently handed to the cache
 // backend model; natively 0.
 func GhostDuration(name string) time.Duration { return 0 }
